@@ -498,7 +498,10 @@ def evaluate(ctx, cases):
         lines += l
     outs = core.run_driver(lines, "C02")
     for c, im, (a, b) in zip(pd, impls, spans):
-        judge_pd(ctx, c, im, outs[a:b])
+        try:
+            judge_pd(ctx, c, im, outs[a:b])
+        except Exception as e:  # noqa: BLE001 -- what evo returned could not even be judged: a finding about this case, never a tool error
+            ctx.fail(c, "output-cannot-be-judged", f"the harness could not judge what evo returned: {type(e).__name__}: {str(e)[:200]}")
     hist = [c for c in cases if c["kind"] == "hist"]
     himpls = [run_impl_hist(c) for c in hist]
     lines, spans = [], []
